@@ -256,6 +256,8 @@ func chainRebuilt(s *sink, t *hx.Ty, r *hx.Val, want hx.Result, id0 int) {
 		if err != nil {
 			return hx.Result{R: "err"} // not describable (known findings D26/D27 and friends): C09's subject
 		}
+		// string defaults in the bare (YAML-style, not JSON-quoted) form other SDKs send: same meaning
+		bareStringDefaults(d)
 		x, err := schema.DescribeScope().Unserialize(d)
 		if err != nil {
 			return hx.Result{R: "err"}
@@ -269,8 +271,26 @@ func chainRebuilt(s *sink, t *hx.Ty, r *hx.Val, want hx.Result, id0 int) {
 		return
 	}
 	s.stats["rebuilt:run"]++
+	describeNow := func() string {
+		rr := hx.Guard(func() hx.Result {
+			d, err := sc.SelfSerialize()
+			if err != nil {
+				return hx.Result{R: "err", Msg: err.Error()}
+			}
+			return hx.Result{R: "ok", V: hx.Enc(d)}
+		})
+		if rr.R != "ok" {
+			return rr.R + ":" + rr.Msg
+		}
+		return hx.Canon(rr.V)
+	}
+	before := describeNow()
 	var u any
 	first := hx.Guard(func() hx.Result { rr, o := hx.RunOpRaw("U", sc, r.ToGo()); u = o; return rr })
+	if after := describeNow(); after != before {
+		s.finding(Finding{Prop: "C12", What: "the first Unserialize on a schema rebuilt from its description changed the schema's self-description",
+			Cases: []int{id0}, Schema: t, Input: r, Detail: []string{before, after}})
+	}
 	if first.R != want.R || (want.R == "ok" && hx.Canon(first.V) != hx.Canon(want.V)) {
 		s.finding(Finding{Prop: "C01", What: "the first Unserialize on a schema rebuilt from its description differs from the constructor-built schema",
 			Cases: []int{id0}, Schema: t, Input: r, Detail: []string{"constructor-built: " + want.JSON(), "rebuilt, first call: " + first.JSON()}})
@@ -363,4 +383,36 @@ func groupRebuilt(s *sink, g *hx.Gen) {
 		chain(s, t, g.Value(t, hx.Env{}, 0), "rebuilt")
 	}
 	chain(s, t, hx.StrAny(), "rebuilt:empty")
+}
+
+// bareStringDefaults rewrites, in a description, the default `"abc"` (a JSON string literal of plain
+// letters) of string-typed properties to the bare text abc, which the SDK accepts by its quoting fallback.
+func bareStringDefaults(d any) {
+	switch m := d.(type) {
+	case map[string]any:
+		if ty, ok := m["type"].(map[string]any); ok {
+			if def, ok := m["default"].(string); ok && ty["type_id"] == "string" && len(def) > 2 && def[0] == '"' && def[len(def)-1] == '"' {
+				plain := true
+				for _, c := range def[1 : len(def)-1] {
+					if c < 'a' || c > 'z' {
+						plain = false
+					}
+				}
+				if plain {
+					m["default"] = def[1 : len(def)-1]
+				}
+			}
+		}
+		for _, v := range m {
+			bareStringDefaults(v)
+		}
+	case map[any]any:
+		for _, v := range m {
+			bareStringDefaults(v)
+		}
+	case []any:
+		for _, v := range m {
+			bareStringDefaults(v)
+		}
+	}
 }
